@@ -1,3 +1,4 @@
+import OpcuaModel.Model.Subs
 /-
   Model of `Client.sendRepublishRequests` / `republishSubscription` (client_sub.go): after
   TransferSubscriptions the client asks the server to send again the notifications it
@@ -72,5 +73,15 @@ def honest (q : List Nat) (n : Nat) : Answer := if n ∈ q then .msg n else .not
 /-- the queue holds a gap-free run of sequence numbers from `n` on: everything the server
     sent after the client's last received message is still there -/
 def contiguousFrom (q : List Nat) (n : Nat) : Prop := ∀ s ∈ q, n ≤ s → ∀ t, n ≤ t → t ≤ s → t ∈ q
+
+/-- what the loop leaves in the client's bookkeeping: `lastSeq` / `nextSeq` of the
+    subscription advance; `pendingAcks` is not touched (the republished messages are
+    handed to the application but never queued for acknowledgement) -/
+def intoClient (c : Subs.Client) (id : Nat) (r : Result) : Subs.Client :=
+  match Subs.findSub c.subs id with
+  | some s =>
+    if r.delivered = [] then c
+    else { c with subs := Subs.setSub c.subs { s with lastSeq := r.nextSeq - 1, nextSeq := r.nextSeq } }
+  | none => c
 
 end Opcua.Rep
